@@ -127,6 +127,46 @@ fn c08_local(rep: &mut Rep, r: &mut Rng, extra: usize) {
       check_ticks(rep, locus, &case, t0, first, p, &seen.borrow());
     }
   }
+  // the _at forms built first and subscribed a little later (real time passes in between):
+  // whatever they do with the time that passed, nothing may come before the given instant
+  for (k, d) in [us(2500), us(4000), us(6000)].into_iter().enumerate() {
+    for form in 0..3 {
+      let names = ["interval_at[real-timer]", "timer_at[real-timer]", "delay_at[real-timer]"];
+      let locus = names[form];
+      let case = format!("rt:built_earlier:{}:{}", form, k);
+      let mut pool = LocalPool::new();
+      let seen: Rc<RefCell<Vec<Instant>>> = Default::default();
+      let s2 = seen.clone();
+      let t0 = Instant::now();
+      let at = t0 + d;
+      let pause = us(1000 + r.below(1500));
+      match form {
+        0 => {
+          let o = observable::interval_at(at, us(700), pool.spawner()).take(2);
+          std::thread::sleep(pause);
+          o.subscribe(move |_| s2.borrow_mut().push(Instant::now()));
+        }
+        1 => {
+          let o = observable::timer_at(1, at, pool.spawner());
+          std::thread::sleep(pause);
+          o.subscribe(move |_| s2.borrow_mut().push(Instant::now()));
+        }
+        _ => {
+          let o = observable::from_iter(vec![1, 2]).delay_at(at, pool.spawner());
+          std::thread::sleep(pause);
+          o.subscribe(move |_| s2.borrow_mut().push(Instant::now()));
+        }
+      }
+      pool.run();
+      rep.count("real_timer_cases", 1);
+      rep.count("at_forms_built_before_they_are_subscribed", 1);
+      let first = seen.borrow().first().cloned();
+      match first {
+        None => rep.violation("wrong_emission_count", locus, &case, json!({"emissions": 0})),
+        Some(first) => early("first value of an _at form built earlier", rep, locus, &case, t0, d, first),
+      }
+    }
+  }
   // due-after-idle: the first wait of interval / interval_at starts at subscription
   for (k, p) in [us(300), us(1000), us(1400), us(2500)].into_iter().enumerate() {
     for at_form in [false, true] {
